@@ -71,6 +71,12 @@ Qed.
 
 Ltac closed := vm_compute; reflexivity.
 
+Ltac pow_lia :=
+  repeat match goal with
+         | |- context [(2 ^ (8 * Z.of_nat ?w))%Z] =>
+             let v := eval vm_compute in (2 ^ (8 * Z.of_nat w))%Z in change (2 ^ (8 * Z.of_nat w))%Z with v
+         end; lia.
+
 (** ---- header *)
 Definition wf32 (z : Z) : Prop := (0 <= z < 2 ^ 32)%Z.
 
@@ -85,10 +91,141 @@ Proof.
   intros Hl Ht Hf Hs Hp. unfold k_header, header_bytes.
   change (encode_struct Py.NetlinkHeader (header_fields len ty fl seq pid) ++ data)
     with ([] ++ encode_struct Py.NetlinkHeader (header_fields len ty fl seq pid) ++ data).
-  rewrite (kint_encoded K.nlmsghdr Py.NetlinkHeader "nlmsg_len" "length" _ [] data 0 len) by closed.
-  rewrite (kint_encoded K.nlmsghdr Py.NetlinkHeader "nlmsg_type" "type" _ [] data 0 ty) by closed.
-  rewrite (kint_encoded K.nlmsghdr Py.NetlinkHeader "nlmsg_flags" "flags" _ [] data 0 fl) by closed.
-  rewrite (kint_encoded K.nlmsghdr Py.NetlinkHeader "nlmsg_seq" "seq" _ [] data 0 seq) by closed.
-  rewrite (kint_encoded K.nlmsghdr Py.NetlinkHeader "nlmsg_pid" "pid" _ [] data 0 pid) by closed.
+  erewrite (kint_encoded K.nlmsghdr Py.NetlinkHeader "nlmsg_len" "length" _ [] data 0 len) by closed.
+  erewrite (kint_encoded K.nlmsghdr Py.NetlinkHeader "nlmsg_type" "type" _ [] data 0 ty) by closed.
+  erewrite (kint_encoded K.nlmsghdr Py.NetlinkHeader "nlmsg_flags" "flags" _ [] data 0 fl) by closed.
+  erewrite (kint_encoded K.nlmsghdr Py.NetlinkHeader "nlmsg_seq" "seq" _ [] data 0 seq) by closed.
+  erewrite (kint_encoded K.nlmsghdr Py.NetlinkHeader "nlmsg_pid" "pid" _ [] data 0 pid) by closed.
   cbn [lf_w]. unfold wf32 in *. rewrite !trunc_small by (cbn; lia). reflexivity.
+Qed.
+
+Ltac side :=
+  lazymatch goal with
+  | |- lookup _ _ = _ => cbn [lf_path]; reflexivity
+  | |- _ => first [closed | symmetry; apply header_bytes_length | reflexivity]
+  end.
+
+Lemma message_length r seq pid :
+  List.length (message_bytes r seq pid) = 16 + List.length (request_data r).
+Proof. unfold message_bytes. cbv zeta. now rewrite app_length, header_bytes_length. Qed.
+
+Definition flags_request_ack : N := Z.to_N (Z.lor K.NLM_F_REQUEST K.NLM_F_ACK).
+
+(** ---- flush *)
+Lemma flush_roundtrip r ty seq pid :
+  (r = flush_policies /\ ty = K.XFRM_MSG_FLUSHPOLICY) \/ (r = flush_sas /\ ty = K.XFRM_MSG_FLUSHSA) ->
+  wf32 seq -> wf32 pid ->
+  emit_request r seq pid = Ok (message_bytes r seq pid) /\
+  kernel_decode_flush (message_bytes r seq pid)
+  = Some (mk_kflush (mk_khdr 17 (Z.to_N ty) flags_request_ack (Z.to_N seq) (Z.to_N pid)) 0).
+Proof.
+  intros Hr Hs Hp. split; [destruct Hr as [[-> _]|[-> _]]; reflexivity|].
+  assert (Hlen : List.length (message_bytes r seq pid) = 17).
+  { rewrite message_length. destruct Hr as [[-> _]|[-> _]]; unfold request_data; cbn [rq_attrs flush_policies flush_sas flat_map];
+      rewrite app_nil_r, encode_struct_length by closed; closed. }
+  assert (Hd : List.length (request_data r) = 1) by (rewrite message_length in Hlen; lia).
+  assert (Hh : k_header (message_bytes r seq pid)
+               = mk_khdr 17 (Z.to_N ty) flags_request_ack (Z.to_N seq) (Z.to_N pid)).
+  { unfold message_bytes. cbv zeta. rewrite Hd. rewrite k_header_emitted; try assumption.
+    - destruct Hr as [[-> ->]|[-> ->]]; reflexivity.
+    - unfold wf32. cbn. lia.
+    - destruct Hr as [[-> _]|[-> _]]; cbn; lia.
+    - destruct Hr as [[-> _]|[-> _]]; cbn; lia. }
+  unfold kernel_decode_flush, framed. rewrite Hh, Hlen. cbn [kh_len].
+  replace (Nat.leb (NLMSG_HDRLEN + c_size K.xfrm_usersa_flush) 17 && N.eqb 17 (N.of_nat 17)) with true by closed.
+  f_equal. f_equal.
+  unfold message_bytes, request_data. cbv zeta.
+  destruct Hr as [[-> _]|[-> _]]; cbn [rq_ptype rq_payload rq_attrs flush_policies flush_sas flat_map];
+    (erewrite (kint_encoded K.xfrm_usersa_flush Py.XfrmUserSaFlush "proto" "proto") by side); reflexivity.
+Qed.
+
+(** ---- addresses *)
+Definition wf_ip (a : ip) : Prop :=
+  wf_bytes (ip_packed a) /\
+  ((ip_version a = 4%Z /\ List.length (ip_packed a) = 4) \/ (ip_version a = 6%Z /\ List.length (ip_packed a) = 16)).
+
+Definition family_of (a : ip) : N := if Z.eqb (ip_version a) 4 then AF_INET else AF_INET6.
+
+Lemma word_roundtrip (b0 b1 b2 b3 : N) :
+  wf_bytes [b0; b1; b2; b3] ->
+  enc BE 4 (trunc 4 (Z.of_N (be_decode [b0; b1; b2; b3]))) = [b0; b1; b2; b3].
+Proof.
+  intros Hwf. pose proof (be_decode_bound _ Hwf) as Hb. cbn [List.length] in Hb.
+  rewrite trunc_small, N2Z.id.
+  - cbn [enc]. apply (be_encode_decode [b0; b1; b2; b3] Hwf).
+  - split; [lia|]. change (2 ^ (8 * Z.of_nat 4))%Z with (Z.of_N (256 ^ N.of_nat 4)). lia.
+Qed.
+
+Lemma addr_image a :
+  wf_ip a ->
+  fit 16 0%N (flat_map (fun z => enc BE 4 (trunc 4 z)) (addr_words a))
+  = ip_packed a ++ zeros (16 - List.length (ip_packed a)).
+Proof.
+  intros [Hwf [[Hv Hl]|[Hv Hl]]]; unfold addr_words; rewrite Hv; cbn [Z.eqb Pos.eqb];
+    destruct a as [v p]; cbn [ip_packed ip_version] in *.
+  - do 5 (destruct p as [|? p]; try discriminate). unfold word_at. cbn [flat_map slice skipn firstn Nat.mul Nat.add Nat.sub app].
+    rewrite word_roundtrip by exact Hwf. reflexivity.
+  - do 17 (destruct p as [|? p]; try discriminate).
+    unfold word_at. cbn [flat_map slice skipn firstn Nat.mul Nat.add Nat.sub app].
+    unfold wf_bytes in Hwf.
+    repeat match goal with H : Forall is_byte (_ :: _) |- _ => inversion H; subst; clear H end.
+    rewrite !word_roundtrip by (unfold wf_bytes; repeat (constructor; [assumption|]); constructor). reflexivity.
+Qed.
+
+Lemma kaddr_image a : wf_ip a ->
+  kaddr (family_of a) (ip_packed a ++ zeros (16 - List.length (ip_packed a))) = ip_packed a.
+Proof.
+  intros [_ [[Hv Hl]|[Hv Hl]]]; unfold kaddr, family_of; rewrite Hv, Hl; cbn [Z.eqb Pos.eqb N.eqb AF_INET AF_INET6].
+  - rewrite <- Hl. apply firstn_app_exact.
+  - cbn. apply app_nil_r.
+Qed.
+
+Lemma family_value a : wf_ip a ->
+  Z.to_N (if Z.eqb (ip_version a) 4 then 2 else 10)%Z = family_of a.
+Proof. intros _. unfold family_of. destruct (Z.eqb (ip_version a) 4); reflexivity. Qed.
+
+Lemma addr_words_length a : List.length (addr_words a) <= 4.
+Proof. unfold addr_words. destruct (Z.eqb (ip_version a) 6); cbn; lia. Qed.
+
+(** ---- delete_sa *)
+Lemma delsa_roundtrip daddr proto spi seq pid :
+  wf_ip daddr -> (0 <= proto < 256)%Z -> List.length spi = 4 -> wf32 seq -> wf32 pid ->
+  let r := delete_sa daddr proto spi in
+  emit_request r seq pid = Ok (message_bytes r seq pid) /\
+  kernel_decode_delsa (message_bytes r seq pid)
+  = Some (mk_ksaid (mk_khdr 40 (Z.to_N K.XFRM_MSG_DELSA) flags_request_ack (Z.to_N seq) (Z.to_N pid))
+                   (family_of daddr) (ip_packed daddr) (be_decode spi) (Z.to_N proto)).
+Proof.
+  intros Hd Hpr Hspi Hs Hp r.
+  split.
+  { unfold emit_request, check_request, check_struct. subst r. cbn [rq_ptype rq_payload rq_attrs delete_sa check_attrs].
+    replace (layout Py.XfrmUserSaId) with
+      [mkleaf "daddr.addr" 0 4 4 BE false false; mkleaf "spi" 16 4 1 LE false false;
+       mkleaf "family" 20 1 2 LE false false; mkleaf "proto" 22 1 1 LE false false] by closed.
+    cbn [check_leaves lookup lf_path String.eqb Ascii.eqb Bool.eqb leaf_check lf_n lf_w Nat.eqb andb].
+    rewrite Hspi. cbn [Nat.eqb].
+    pose proof (addr_words_length daddr) as Hw. apply Nat.leb_le in Hw. rewrite Hw. reflexivity. }
+  assert (Hdata : List.length (request_data r) = 24).
+  { unfold request_data. subst r. cbn [rq_attrs delete_sa flat_map]. rewrite app_nil_r, encode_struct_length by closed. closed. }
+  assert (Hlen : List.length (message_bytes r seq pid) = 40) by (rewrite message_length; lia).
+  assert (Hh : k_header (message_bytes r seq pid)
+               = mk_khdr 40 (Z.to_N K.XFRM_MSG_DELSA) flags_request_ack (Z.to_N seq) (Z.to_N pid)).
+  { unfold message_bytes. cbv zeta. rewrite Hdata. rewrite k_header_emitted; try assumption; try (subst r; cbn; lia).
+    - reflexivity.
+    - unfold wf32; cbn; lia. }
+  unfold kernel_decode_delsa, framed. rewrite Hh, Hlen. cbn [kh_len].
+  replace (Nat.leb (NLMSG_HDRLEN + c_size K.xfrm_usersa_id) 40 && N.eqb 40 (N.of_nat 40)
+           && Nat.eqb 40 (NLMSG_HDRLEN + c_size K.xfrm_usersa_id)) with true by closed.
+  cbv zeta. f_equal.
+  unfold message_bytes, request_data. cbv zeta. subst r. cbn [rq_ptype rq_payload rq_attrs delete_sa flat_map].
+  set (fs := [("daddr.addr", VWords (addr_words daddr)); _; _; _]).
+  erewrite (kint_encoded K.xfrm_usersa_id Py.XfrmUserSaId "family" "family") by side.
+  erewrite (kint_encoded K.xfrm_usersa_id Py.XfrmUserSaId "proto" "proto") by side.
+  erewrite (kraw_encoded K.xfrm_usersa_id Py.XfrmUserSaId "daddr.a6" "daddr.addr") by side.
+  erewrite (kint_bytes K.xfrm_usersa_id Py.XfrmUserSaId "spi" "spi") by side.
+  subst fs. cbn [lookup lf_path String.eqb Ascii.eqb Bool.eqb leaf_bytes leaf_len lf_n lf_w lf_end Nat.mul Nat.add dec].
+  rewrite addr_image by assumption.
+  rewrite !trunc_small by (destruct (Z.eqb (ip_version daddr) 4); pow_lia).
+  rewrite family_value by assumption. rewrite kaddr_image by assumption.
+  rewrite fit_exact by assumption. reflexivity.
 Qed.
